@@ -44,6 +44,15 @@ def sym_div(kind, a, b):
     return Lin.sym(name)
 
 
+def sym_max(a, b):
+    if a == b:
+        return a
+    a, b = sorted([a, b], key=repr)
+    name = "max(%r, %r)" % (a, b)
+    SYMDEFS[name] = ("max", a, b)
+    return Lin.sym(name)
+
+
 def sym_prod(a, b):
     a, b = sorted([a, b], key=repr)
     name = "(%r)*(%r)" % (a, b)
@@ -124,6 +133,8 @@ class Env:
             a, b = self.eval(d[1]), self.eval(d[2])
             if d[0] == "prod":
                 return a * b
+            if d[0] == "max":
+                return max(a, b)
             if b == 0:
                 raise Uneval(s)
             if d[0] == "mod":
@@ -666,6 +677,49 @@ class Resh2(Nd):
         return "Resh2(%r -> %r x %r)" % (self.base, self.rows, self.cols)
 
 
+class Reshape(Nd):
+    """General row-major ``A.reshape(shape)`` (all target extents explicit)."""
+
+    def __init__(self, base, shape):
+        self.base = base
+        self.shape = tuple(as_lin(x) for x in shape)
+
+    def cell(self, coords, q, **kw):
+        if not q.concrete:
+            # symbolic only in the trivial case: same extents up to leading axes of length 1
+            a = [x for x in self.shape if q.eq(x, ONE) is not True]
+            b = [x for x in self.base.shape if q.eq(x, ONE) is not True]
+            if len(a) == len(b) and all(q.eq(x, y) is True for x, y in zip(a, b)):
+                ca = [c for c, x in zip(coords, self.shape) if q.eq(x, ONE) is not True]
+                it = iter(ca)
+                cc = [ZERO if q.eq(x, ONE) is True else next(it) for x in self.base.shape]
+                return self.base.cell(cc, q, **kw)
+            return None
+        tgt = [int(q.env.eval(x)) for x in self.shape]
+        src = [int(q.env.eval(x)) for x in self.base.shape]
+        nt = ns = 1
+        for d in tgt:
+            nt *= d
+        for d in src:
+            ns *= d
+        if nt != ns:
+            return ("shape-error",)
+        flat = 0
+        for c, d in zip(coords, tgt):
+            v = q.env.eval(c)
+            if not (0 <= v < d):
+                return OOB
+            flat = flat * d + int(v)
+        cc = []
+        for d in reversed(src):
+            cc.append(Lin.c(flat % d if d else 0))
+            flat = flat // d if d else 0
+        return self.base.cell(list(reversed(cc)), q, **kw)
+
+    def __repr__(self):
+        return "Reshape(%r -> %r)" % (self.base, list(self.shape))
+
+
 class ColAgg(Nd):
     """``np.nanmean(A, axis=0)`` of a 2-d term (NaN cells are skipped), or of a 1-d term (scalar)."""
 
@@ -936,6 +990,8 @@ class AInterp(Interp):
                     if attr in k.methods:
                         break
             return Opq("self." + attr)
+        if isinstance(base, Ser) and attr == "index":
+            return Opq("index-of", [base])
         if isinstance(base, Nd):
             if attr == "shape":
                 return Tup(list(base.shape))
@@ -1048,6 +1104,19 @@ class AInterp(Interp):
             if idx is not None:
                 return ItemV(base, idx)
             return Opq("list-index", [base])
+        if isinstance(base, Opq) and base.tag == "attr:iloc" and base.args and isinstance(base.args[0], Ser) \
+                and isinstance(e.slice, ast.Slice):
+            ser = base.args[0]
+            spec = self.parse_subscript(ser, e.slice, st, frame)
+            if spec is None:
+                return Opq("iloc", [ser])
+            return self.make_view(ser.src, spec)
+        if isinstance(base, Opq) and base.tag == "index-of" and base.args and isinstance(base.args[0], Ser) \
+                and not isinstance(e.slice, ast.Slice):
+            li = as_lin_val(self.ev(e.slice, st, frame))
+            if li is not None and li.is_const() and li.const in (0, -1):
+                return base.args[0].first if li.const == 0 else base.args[0].cutoff
+            return Opq("index-elem", [base])
         if isinstance(base, Opq) and base.tag == "attr:loc" and base.args and isinstance(base.args[0], Ser) \
                 and isinstance(e.slice, ast.Slice) and e.slice.step is None:
             lo = as_lin_val(self.ev(e.slice.lower, st, frame)) if e.slice.lower is not None else None
@@ -1295,6 +1364,16 @@ class AInterp(Interp):
         if isinstance(recv, ListV) and meth == "append" and len(args) == 1:
             recv.appends.append((args[0], list(st.loops), dict(st.atoms)))
             return K(None)
+        if isinstance(recv, Ser) and meth == "combine_first" and len(args) == 1:
+            other = args[0]
+            if isinstance(other, Ser) and other.ndim == recv.ndim:
+                # union of the two label sets; the last label is the later of the two ends
+                last = sym_max(recv.cutoff, other.cutoff)
+                return Ser("(%s|%s)" % (recv.name, other.name), Lin.sym("len(%s|%s)" % (recv.name, other.name)), last,
+                           recv.shape[1] if recv.ndim == 2 else None)
+            if isinstance(other, K) and other.v is None:
+                return recv
+            return Opq("combine_first", [recv, other])
         if isinstance(recv, Nd):
             if meth in ("to_numpy", "copy", "astype") and not isinstance(recv, Buf):
                 return recv
@@ -1315,7 +1394,15 @@ class AInterp(Interp):
                     return recv
                 return Opq("fh." + meth)
             if meth == "to_indexer" and recv.relative:
-                return recv.vec.shift(-1)
+                fc = kwargs.get("from_cutoff", args[1] if len(args) > 1 else K(True))
+                if fc == K(True):
+                    return recv.vec.shift(-1)
+                if fc == K(False):
+                    # zero-based relative to the first value of the horizon
+                    v = recv.vec
+                    first = sym_elem(v.base, ZERO) + v.off
+                    return Vec(v.base, v.off - first, v.sorted, v.neg)
+                return Opq("fh.to_indexer(from_cutoff=?)")
         return super().method_call(recv, meth, args, kwargs, e, st, frame)
 
     def reshape(self, a, args, st):
@@ -1334,6 +1421,8 @@ class AInterp(Interp):
             return View(a, [("sl", 0, ZERO)], [a.shape[0], ONE])
         if len(ls) == 2 and not minus1 and a.ndim == 1:
             return Resh2(a, ls[0], ls[1])
+        if not minus1 and len(ls) >= 2 and not (len(ls) == 2 and a.ndim == 1):
+            return Reshape(a, ls)
         if len(ls) == 2 and minus1 == [0] and a.ndim == 1:
             rows = sym_div("floor", a.shape[0], ls[1]) if not (a.shape[0].is_const() and ls[1].is_const()) else Lin.c(a.shape[0].const // ls[1].const)
             return Resh2(a, rows, ls[1])
